@@ -353,6 +353,27 @@ def analyse(facts, tier):
             else:
                 why = 'opn2_cvtU%d(%d) = %s while opn2_cvtS%d(%d) = %s: the unsigned format is no longer the signed one shifted by half the range' % (bits, bad[0], bad[1], bits, bad[0], bad[2])
         obls.append(Obl('C13.R4', cf.name, 'unsigned = signed sibling - INT_MIN', cf.loc, status, why=why))
+    # the down-scaling converter is odd-symmetric (rounds toward zero): the 8-bit rendering of a signal and of its negation are
+    # negations of each other, so quiet material (|x| < 256) is silence (0 / 128) on both half-waves.  Abstract evaluation of the
+    # function on singleton inputs, one per rounding class.
+    sf = facts.fn('opn2_cvtS8')
+    bad = None
+    def at(x0):
+        eng = Engine2(facts, {}, {}, {})
+        s0 = St(); s0.env[('v', sf.params[0]['id'])] = V(x0, x0)
+        eng.run(sf, s0, record=False)
+        rv = None
+        for v in eng.returns:
+            rv = v if rv is None else rv.join(v)
+        return rv
+    for x0 in (1, 7, 15, 255, 256, 257, 511, 512, 842, 32767):
+        p_, n_ = at(x0), at(-x0)
+        if p_ is None or n_ is None or not p_.is_point() or not n_.is_point() or p_.lo != -n_.lo:
+            bad = (x0, p_, n_)
+            break
+    obls.append(Obl('C13.R4', sf.name, 'down-scaling rounds toward zero (odd symmetry)', sf.loc, 'discharged' if bad is None else 'finding',
+                    why='opn2_cvtS8(-x) == -opn2_cvtS8(x) on representatives of every rounding class' if bad is None else
+                    'opn2_cvtS8(%d) = %s but opn2_cvtS8(%d) = %s: negative samples are rounded the other way, quiet material is no longer rendered as silence on its negative half-waves (S8 -1 / U8 127 instead of 0 / 128)' % (bad[0], bad[1], -bad[0], bad[2])))
     obls += r6(facts)
     return obls
 
